@@ -17,7 +17,10 @@ LEAN_MODULES = ["DclabModel.Properties.C19"]
 RULE = ("(a) seeded histories of seek/tell/read on HTTPFile for resources of size k*cs+{-1,0,1}, "
         "cs in {1,2,3,7,16,64}, keep in {2,3,8,200}; every answer, the cache key order and the "
         "issued Range requests are compared with the Lean model after each op, and every "
-        "in-range read with blob[pos:pos+n] directly. (b) RTDC_HTTP (patched to small chunk "
+        "in-range read with blob[pos:pos+n] directly; about one read in ten is hit by an injected "
+        "download failure at a chosen request of its chunk loop (position must not move, the retry "
+        "must return the bytes); the same histories are driven through S3File with a fake "
+        "s3_object that honours RFC 7233 ranges. (b) RTDC_HTTP (patched to small chunk "
         "size/capacity) vs RTDC_HDF5 on generated .rtdc files. distinct = distinct "
         "(cs,keep,len,op list) histories containing at least one read that crosses a chunk "
         "boundary or triggers an eviction.")
@@ -29,14 +32,88 @@ TRUSTED_BASE = [
     "keep_chunks = 1 is known finding F20",
 ]
 ASSUMPTIONS = ["server honours Range requests exactly (bytes a..b inclusive)"]
-NOT_PROVED = ["S3File.download_range (same contract; covered by a source check only)",
+NOT_PROVED = ["S3File: boto3 client construction, authentication and the real S3 wire protocol (the "
+              "file object is driven offline with a fake s3_object; its download_range/_parse_header "
+              "are exercised by the same histories as HTTPFile)",
               "RTDC_HTTP == RTDC_HDF5 is correspondence-only on top of read_exact"]
 
 URL = "http://verif.invalid/res.bin"
 
 
+class Skip(Exception):
+    """this sub-comparison cannot be made on the tree under test (private name gone)"""
+
+
+class InjectedFault(OSError):
+    """a transient network failure injected by the harness"""
+
+
+class FaultySession(common.FakeSession):
+    """FakeSession whose (fail_in+1)-th Range request from now raises InjectedFault"""
+    fail_in = None
+
+    def get(self, url, headers=None, **kw):
+        if (headers or {}).get("Range") is not None and self.fail_in is not None:
+            if self.fail_in == 0:
+                self.log.append((url, headers["Range"]))
+                self.fail_in = None
+                raise InjectedFault("injected download failure")
+            self.fail_in -= 1
+        return super().get(url, headers=headers, **kw)
+
+
+class FakeS3Object:
+    """stands in for boto3's s3.Object: content_length, e_tag, get(Range='bytes=a-b')"""
+
+    def __init__(self, blob, oob):
+        self.blob, self.oob, self.log, self.fail_in = blob, oob, [], None
+
+    @property
+    def content_length(self):
+        return len(self.blob)
+
+    @property
+    def e_tag(self):
+        return '"verif-etag-%d"' % len(self.blob)
+
+    def get(self, Range=None, **kw):
+        import io
+        self.log.append((URL, Range))
+        if self.fail_in is not None:
+            if self.fail_in == 0:
+                self.fail_in = None
+                raise InjectedFault("injected download failure")
+            self.fail_in -= 1
+        assert isinstance(Range, str) and Range.startswith("bytes="), Range
+        a, b = Range[6:].split("-")
+        a, b = int(a), int(b)
+        if a >= len(self.blob) or b < a:
+            return {"Body": io.BytesIO(self.oob)}
+        return {"Body": io.BytesIO(self.blob[a:b + 1])}
+
+
+def open_file(case, oob):
+    """the file object under test and the object that logs its requests"""
+    from dclab import http_utils
+    blob = bytes(case["blob"])
+    if case.get("kind", "http") == "s3":
+        from dclab.rtdc_dataset import fmt_s3
+        f = fmt_s3.S3File("verif-bucket/res.bin", "http://verif.invalid:9000")
+        srv = FakeS3Object(blob, oob)
+        f.s3_object = srv
+        # S3File takes no chunk parameters: the small configurations are set on the instance
+        if not (hasattr(f, "_chunk_size") and hasattr(f, "_keep_chunks")):
+            raise Skip("S3File has no _chunk_size/_keep_chunks attributes any more")
+        f._chunk_size, f._keep_chunks = case["cs"], case["keep"]
+        return f, srv
+    ses = FaultySession(oob=oob)
+    http_utils.session_cache.sessions["verif.invalid"] = ses
+    ses.blobs[URL] = blob
+    return http_utils.HTTPFile(URL, chunk_size=case["cs"], keep_chunks=case["keep"]), ses
+
+
 # --------------------------------------------------------------------------------------
-def gen_history(rng, thorough):
+def gen_history(rng, thorough, faults=True):
     cs = rng.choice([1, 2, 3, 7, 16, 64])
     keep = rng.choice([2, 2, 3, 8, 200])
     k = rng.randint(0, 9 if thorough else 6)
@@ -67,6 +144,18 @@ def gen_history(rng, thorough):
                 n = max(0, left) + rng.randint(1, cs + 1)      # beyond EOF (mirror only)
             else:
                 continue
+            if faults and n > 0 and pos + n <= length and rng.random() < 0.18:
+                # a read hit by a download failure at request number `budget`+1 of its loop; whether
+                # it fails depends on what is cached (a failed read must not move the position)
+                ops.append(("readf", n, rng.choice([0, 0, 1, 1, 2, (n // cs) + 1])))
+                ops.append(("tell",))
+                if rng.random() < 0.7:
+                    ops.append(("seek", pos, 0))     # no-op if the read failed (re-synchronises)
+                    ops.append(("read", n))          # the retry
+                    pos = pos + n
+                else:
+                    ops.append(("seek", pos, 0))
+                continue
             ops.append(("read", n))
             pos = pos + n if n > 0 else length
         elif r < 0.9:
@@ -85,26 +174,36 @@ def gen_history(rng, thorough):
 
 
 def run_impl(case, oob=b"\xfe\xfd"):
-    """drive the real HTTPFile; returns (lines, state_lines, direct spec failures)"""
+    """drive the real HTTPFile / S3File; returns (lines, state_lines, direct spec failures)"""
     common.import_dclab()
-    from dclab import http_utils
-    ses = common.install_fake_session(oob=oob)
+    f, srv = open_file(case, oob)
     blob = bytes(case["blob"])
-    ses.blobs[URL] = blob
-    f = http_utils.HTTPFile(URL, chunk_size=case["cs"], keep_chunks=case["keep"])
     out, states, specfail = [], [], []
     pos = 0
     for i, op in enumerate(case["ops"]):
         try:
-            if op[0] == "read":
+            if op[0] in ("read", "readf"):
                 n = op[1]
-                d = f.read(n)
-                out.append("data " + ",".join(str(b) for b in d))
-                if pos >= 0 and n >= 0 and pos + n <= len(blob):
-                    if bytes(d) != blob[pos:pos + n]:
+                inside = pos >= 0 and n >= 0 and pos + n <= len(blob)
+                if op[0] == "readf":
+                    srv.fail_in = op[2]
+                try:
+                    d = f.read(n)
+                except InjectedFault:
+                    out.append("err:io")
+                    p = f.tell()
+                    if p != pos:
+                        specfail.append((i, f"read({n}) at {pos} failed with a download error but "
+                                            f"moved the position to {p}"))
+                        pos = p
+                else:
+                    out.append("data " + ",".join(str(b) for b in d))
+                    if inside and bytes(d) != blob[pos:pos + n]:
                         specfail.append((i, f"read({n}) at {pos} returned {list(d)[:20]}… "
                                             f"instead of blob[{pos}:{pos + n}]"))
-                pos = pos + n if n > 0 else len(blob)
+                    pos = pos + n if n > 0 else len(blob)
+                finally:
+                    srv.fail_in = None
             elif op[0] == "seek":
                 f.seek(op[1], op[2])
                 out.append("ok")
@@ -119,12 +218,16 @@ def run_impl(case, oob=b"\xfe\xfd"):
         if case["keep"] >= 2 and len(f.cache) > case["keep"]:
             specfail.append((i, f"{len(f.cache)} chunks cached > keep_chunks={case['keep']}"))
         reqs = []
-        for (_u, r) in ses.log:
+        for (_u, r) in srv.log:
             if r is not None:
                 a, b = r[6:].split("-")
                 reqs.append(f"{int(a)}-{int(b) + 1}")
         states.append("cache " + ",".join(str(k) for k in f.cache.keys())
                       + " reqs " + ";".join(reqs))
+    try:
+        f.close()
+    except Exception:  # noqa
+        pass
     return out, states, specfail
 
 
@@ -157,7 +260,10 @@ def nontrivial(case):
     chunks = set()
     L = len(case["blob"])
     for op in case["ops"]:
-        if op[0] == "read":
+        if op[0] == "readf":
+            if op[1] > 0 and pos // cs != (pos + op[1] - 1) // cs:
+                return True
+        elif op[0] == "read":
             n = op[1]
             if n > 0 and pos // cs != (pos + n - 1) // cs:
                 return True
@@ -278,6 +384,68 @@ def part_b(ctx, n_files):
         fmt_http.HTTPFile = orig
 
 
+def default_config(ctx, s3_ok):
+    """HTTPFile / S3File with their DEFAULT chunk size and capacity on a resource of several
+    chunks: every read against blob[pos:pos+n] and every request a whole-chunk range (the Lean
+    model is not driven with resources of this size)"""
+    common.import_dclab()
+    from dclab import http_utils
+    rs = np.random.RandomState(ctx.rng.randrange(2**31))
+    for kind in ["http"] + (["s3"] if s3_ok else []):
+        try:
+            if kind == "http":
+                probe = http_utils.HTTPFile(URL)
+            else:
+                from dclab.rtdc_dataset import fmt_s3
+                probe = fmt_s3.S3File("verif-bucket/res.bin", "http://verif.invalid:9000")
+            cs = getattr(probe, "_chunk_size", 2**18)
+            probe.close()
+        except Exception as e:  # noqa
+            ctx.note(f"default-configuration run skipped for {kind}: {e!r}"[:200])
+            continue
+        L = 3 * cs + int(rs.randint(1, cs))
+        blob = rs.randint(0, 256, size=L, dtype=np.uint8).tobytes()
+        case = {"cs": cs, "keep": 200, "blob": blob, "ops": [], "kind": kind}
+        # open_file passes cs/keep explicitly for http (they equal the defaults) and sets them
+        # on the instance for s3 (idem)
+        f, srv = open_file(case, b"<416>")
+        bad = None
+        pos = 0
+        for _ in range(40):
+            r = rs.rand()
+            if r < 0.5:
+                pos = int(rs.choice([rs.randint(0, L), (rs.randint(0, L) // cs) * cs,
+                                     max(0, L - rs.randint(0, 2 * cs))]))
+                f.seek(pos)
+            n = int(rs.choice([1, cs - pos % cs, min(L - pos, cs + 17), rs.randint(0, L - pos + 1)]))
+            n = max(0, min(n, L - pos))
+            if n == 0:
+                continue
+            try:
+                d = f.read(n)
+            except Exception as e:  # noqa
+                bad = f"read({n}) at {pos} raised {e!r}"[:200]
+                break
+            if bytes(d) != blob[pos:pos + n]:
+                bad = f"read({n}) at {pos} returned other bytes than blob[{pos}:{pos + n}]"
+                break
+            pos += n
+            if f.tell() != pos:
+                bad = f"tell() = {f.tell()} after reading to {pos}"
+                break
+        for (_u, r) in srv.log:
+            if r is not None and bad is None:
+                a, b = (int(x) for x in r[6:].split("-"))
+                if a % cs != 0 or b + 1 != min(a + cs, L):
+                    bad = f"request {r} is not a whole-chunk range (chunk size {cs}, length {L})"
+        ctx.case(("default", kind, L), nontrivial=True)
+        ctx.stat("default_config_" + kind)
+        if bad:
+            ctx.violation("spec", f"{'HTTPFile' if kind == 'http' else 'S3File'} with default "
+                                  f"chunk size: {bad}",
+                          {"part": "default", "kind": kind, "length": L, "chunk_size": cs})
+
+
 def source_check(ctx):
     """S3File.download_range must use the same inclusive-end convention (not reachable offline)"""
     import ast
@@ -316,8 +484,28 @@ def run(ctx):
             cases.append(json.loads(p.read_text()))
     for _ in range(ctx.n(250, 6000)):
         cases.append(gen_history(ctx.rng, ctx.thorough))
+    # the same kind of histories through S3File (fake s3_object; boto3 objects are built offline)
+    s3_ok = True
+    for _ in range(ctx.n(40, 400)):
+        c = gen_history(ctx.rng, ctx.thorough)
+        c["kind"] = "s3"
+        cases.append(c)
     # implementation side
-    impl = [run_impl(c) for c in cases]
+    impl = []
+    for c in cases:
+        try:
+            impl.append(run_impl(c) if (s3_ok or c.get("kind") != "s3") else None)
+        except Skip as e:
+            s3_ok = False
+            ctx.note(f"S3File small-chunk histories skipped: {e}")
+            impl.append(None)
+        except ImportError as e:
+            s3_ok = False
+            ctx.note(f"S3File not importable here ({e}); S3 histories skipped")
+            impl.append(None)
+    keep_idx = [i for i, r in enumerate(impl) if r is not None]
+    cases = [cases[i] for i in keep_idx]
+    impl = [impl[i] for i in keep_idx]
     # model side: one driver invocation for all cases
     model = None
     if ctx.lean_ok:
@@ -338,6 +526,9 @@ def run(ctx):
         ctx.stat(f"cs={c['cs']}")
         ctx.stat("ops", len(c["ops"]))
         ctx.stat("reads", sum(1 for o in c["ops"] if o[0] == "read"))
+        ctx.stat("kind=" + c.get("kind", "http"))
+        ctx.stat("faults_injected", sum(1 for o in c["ops"] if o[0] == "readf"))
+        ctx.stat("faults_fired", sum(1 for o in out_i if o == "err:io"))
         if specfail:
             small = shrink(c, spec_fails)
             ctx.violation("spec", "HTTPFile: " + run_impl(small)[2][0][1], small)
@@ -352,6 +543,8 @@ def run(ctx):
         found = False
         for _ in range(ctx.n(2500, 20000)):
             c = gen_history(ctx.rng, True)
+            if s3_ok and ctx.rng.random() < 0.15:
+                c["kind"] = "s3"
             if spec_fails(c):
                 small = shrink(c, spec_fails)
                 ctx.violation("spec", "HTTPFile: " + run_impl(small)[2][0][1], small)
@@ -363,6 +556,7 @@ def run(ctx):
                                     f"({len(mirror_bad)} histories), first: {d[1]}",
                           {"correspondence": "Drive/C19.lean vs dclab.http_utils.HTTPFile",
                            "case": c})
+    default_config(ctx, s3_ok)
     part_b(ctx, ctx.n(6, 60))
     source_check(ctx)
     known_f20(ctx)
